@@ -296,6 +296,45 @@ let cmd_otcert t =
   let u = List.init n (fun _ -> next_bigz t) in let v = List.init m (fun _ -> next_bigz t) in
   out_int (if ot_cert_chk (nat_of_int n) (nat_of_int m) e c f u v then 1 else 0)
 
+(* rejsample fuel n pool s0 s1 s2 -> samples | final rng, or NONE *)
+let cmd_rejsample t =
+  let fuel = next_int t in let n = next_int t in let pool = next_z t in
+  let rng = next_list t 3 in
+  match rejection_sample (nat_of_int fuel) (nat_of_int n) pool [] rng with
+  | None -> out_str "NONE"
+  | Some (res, rng') -> out_list res; out_sep (); out_list rng'
+
+(* conncert n ne edges[2*ne] parent[n] depth[n] -> "sym conn" *)
+let cmd_conncert t =
+  let n = next_int t in let ne = next_int t in
+  let edges = List.init ne (fun _ -> let a = next_int t in let b = next_int t in (nat_of_int a, nat_of_int b)) in
+  let parent = List.init n (fun _ -> nat_of_int (next_int t)) in
+  let depth = List.init n (fun _ -> nat_of_int (next_int t)) in
+  out_int (if sym_chk edges then 1 else 0);
+  out_int (if conn_cert_chk (nat_of_int n) edges parent depth then 1 else 0)
+
+(* aliasrun sip nops ops... ; op encodings:
+   0 dt c sparse sorted mclass tree | 1 (prepare) | 2 dt c sparse sorted (query) | 3 dt c sp so dt c sp so (update) | 4 compress | 5 pickle
+   -> per op "shares nwrites-per-buffer(X Q U F)" *)
+let cmd_aliasrun t =
+  let sip = next_int t <> 0 in
+  let n = next_int t in
+  let dt () = match next_int t with 0 -> F32 | 1 -> F64 | 2 -> U8 | _ -> I64 in
+  let cfg () = let d = dt () in let c = next_int t <> 0 in let sp = next_int t <> 0 in let so = next_int t <> 0 in
+    { a_dt = d; a_c = c; a_sparse = sp; a_sorted = so } in
+  let ops = List.init n (fun _ ->
+    match next_int t with
+    | 0 -> let c = cfg () in let m = (match next_int t with 0 -> Plain | 1 -> Dot | _ -> Bit) in let tr = next_int t <> 0 in Construct (c, m, tr)
+    | 1 -> Prepare
+    | 2 -> Query (cfg ())
+    | 3 -> let u = cfg () in let f = cfg () in Update (u, f)
+    | 4 -> Compress
+    | _ -> Pickle) in
+  List.iter (fun (sh, w) ->
+    out_int (if sh then 1 else 0);
+    List.iter (fun b -> out_int (List.length (List.filter (fun x -> x = b) w))) [BufX; BufQ; BufU; BufF];
+    out_sep ()) (run sip init_state ops)
+
 (*DISPATCH-BEGIN*)
 let dispatch : (string * (toks -> unit)) list = [
   ("heapseq", cmd_heapseq);
@@ -320,6 +359,9 @@ let dispatch : (string * (toks -> unit)) list = [
   ("sparseops", cmd_sparseops);
   ("binmetrics", cmd_binmetrics);
   ("otcert", cmd_otcert);
+  ("rejsample", cmd_rejsample);
+  ("aliasrun", cmd_aliasrun);
+  ("conncert", cmd_conncert);
 ]
 (*DISPATCH-END*)
 
